@@ -99,7 +99,7 @@ class Renderer:
     def selector(self, sel, ws=True):
         t = sel[0]
         if t == "name":
-            if self.alias and shorthand_ok(sel[1]) and sel[1] not in RESERVED and not sel[1].startswith("_") and self.r.random() < 0.5 and all(ord(c) < 0x10000 for c in sel[1]):
+            if self.alias and shorthand_ok(sel[1]) and sel[1] not in RESERVED and not sel[1].startswith("_") and not sel[1][0].isdecimal() and self.r.random() < 0.5 and all(ord(c) < 0x10000 for c in sel[1]):
                 return sel[1]  # bare name in brackets (non-standard)
             return self.string(sel[1])
         if t == "index":
